@@ -79,7 +79,21 @@ def gen(rng, tier):
                 if col["name"] == "junk":
                     col["name"] = ""
                     col["values"][0] = None
-        case = {"formula": fml, "frame": fr, "na": na, "missing": missing, "kind": na}
+        removed = []
+        if rng.random() < 0.12:
+            # a variable whose every term is removed again by '-' is not used by the model: its missing values do
+            # not matter (x*z - z still uses z through x:z; z - z does not)
+            import re as _re2
+            cand = [v for v in ("z", "w", "x") if not _re2.search(r"(?<![A-Za-z_0-9])" + v + r"(?![A-Za-z_0-9(])", fml)]
+            if cand:
+                v = rng.choice(cand)
+                fml += rng.choice([f" + {v} - {v}", f" + {v}:f - {v}:f" if "f" in fml.split("~")[1].split() else f" + {v} - {v}"])
+                removed.append(v)
+                for col in fr["columns"]:
+                    if col["name"] == v and all(x_ is not None for x_ in col["values"]):
+                        col["values"][rng.randrange(nrows)] = None
+                        missing.setdefault(v, []).append(-1)
+        case = {"formula": fml, "frame": fr, "na": na, "missing": missing, "kind": na, "removed": removed}
         if na in ("drop", "error") and rng.random() < 0.12:
             # infinities are values, not missing values: a row holding +inf and -inf is complete (the model has
             # no infinite cells: such cases are decided by the oracle alone)
@@ -91,6 +105,7 @@ def gen(rng, tier):
                 if col["name"] == "w" and col["values"][r0] is not None:
                     col["values"][r0] = signs[1]
             case["formula"] = fml + " + x + w"
+            case["removed"] = [v_ for v_ in removed if v_ not in ("x", "w")]
             case["inf"] = True
             case["kind"] = na + "-inf"
         cases.append(case)
@@ -163,6 +178,7 @@ def _oracle(c):
     for m in _re.finditer(r"(?<![A-Za-z_0-9.])([A-Za-z_][A-Za-z_0-9]*)(?![A-Za-z_0-9])\s*(\()?", text):
         if not m.group(2):
             names.add(m.group(1))
+    names -= set(c.get("removed") or [])
     used = [v for v in df.columns if v in names]
     incomplete = df[used].isna().any(axis=1).to_numpy() if used else np.zeros(len(df), dtype=bool)
     # the reference run sees the complete rows of the USED columns only (it must not inherit a fault in the way
@@ -206,6 +222,11 @@ def _oracle(c):
             if set(df[v].dropna().astype(str)) != set(complete_df[v].dropna().astype(str)):
                 return None
     if na == "drop":
+        # counted directly, not through a second run (which would share a fault of the row filter)
+        for name, g in zip(("response", "common", "group"), got):
+            if g is not None and g.shape[0] != int((~incomplete).sum()):
+                return (f"{f!r}: na_action='drop' keeps {g.shape[0]} rows in the {name} matrix, {int((~incomplete).sum())} "
+                        f"rows are complete in the used variables {used}")
         for name, g, w in zip(("response", "common", "group"), got, want):
             if (g is None) != (w is None):
                 return f"{f!r}: {name} present/absent differs from the run on the filtered data"
